@@ -326,6 +326,35 @@ Proof.
   destruct o as [[f|] [sc|] inl]; reflexivity.
 Qed.
 
+(* with every module's table parsed from a well-formed file and a fuel that covers them: the compiled
+   fill_source_line_info returns, and the frame is the pure result of c11_module_frame_total *)
+From RM Require Import C11.Proofs7.
+Lemma src_frame_total p fuel (mods : list module) instr :
+  Forall wf_module mods -> Forall module_parsed mods -> instr < two64 ->
+  (forall b sz st, In (b, sz, Some st) mods -> fuel_covers st fuel) ->
+  exists tbl, mod_table mods = Ret tbl /\
+    src_fill_source_line_info p fuel (mk_sframe instr None empty_out) (tbl, mods) =
+      Ret (match rm_get tbl instr with
+           | None => mk_sframe instr None empty_out
+           | Some idx =>
+               match nth_error mods (Z.to_nat idx) with
+               | Some (b, _, Some st) =>
+                   let o := fill_pure st b instr in mk_sframe instr (Some idx) (mk_out (o_func o) (o_src o) (rev (o_inl o)))
+               | _ => mk_sframe instr (Some idx) empty_out
+               end
+           end).
+Proof.
+  intros Hwf Hp Hi Hfuel. destruct (module_frame_total p mods instr Hwf Hp Hi) as (tbl & Et & Hf).
+  exists tbl. split; [exact Et|].
+  rewrite src_fill_source_line_info_eq; [rewrite Hf; cbn [obind]| exact Hi |].
+  - destruct (rm_get tbl instr) as [idx|]; [|reflexivity].
+    destruct (nth_error mods (Z.to_nat idx)) as [[[b sz] [st|]]|]; reflexivity.
+  - intros idx b sz st _ En. pose proof (nth_error_In _ _ En) as Hin.
+    rewrite Forall_forall in Hwf, Hp. destruct (Hwf _ Hin) as [[Hb _] _]. destruct (Hp _ Hin) as (rf & Hrf & Hrel).
+    cbn [fst snd] in *. split; [exact Hb|]. split; [exact (Hfuel b sz st Hin)|].
+    rewrite (fill_ret true p rf st b instr Hrf Hrel Hb Hi). discriminate.
+Qed.
+
 (* the table built with the compiled finish_item arm (Driver.table_of_src) is build_symtab *)
 From RM Require C11.Driver.
 Lemma src_finish_funcs_eq p l : forall acc, Forall wf_fraw l ->
